@@ -993,6 +993,18 @@ func zoneNamesUninterpreted(c *core.Ctx, rule string, pkgs []string) {
 			}
 			c.Bad(rule, fk+" zone name is derived", core.InstrPos(at), "the zone name handed to the zone lookup is loaded from memory this rule cannot attribute to a parameter")
 		case *ssa.Call:
+			// a same-package helper that selects the name (benign 68: `epochTimezone(tz)` returning "UTC" or tz[0]): its
+			// returned values are judged like ours
+			if callee := x.Call.StaticCallee(); callee != nil && callee.Blocks != nil && core.FuncPkg(callee) == core.FuncPkg(x.Parent()) && callee.Signature.Results().Len() == 1 {
+				for _, b := range callee.Blocks {
+					for _, in := range b.Instrs {
+						if ret, ok := in.(*ssa.Return); ok && len(ret.Results) == 1 {
+							back(ret.Results[0], ret, seen, core.FuncKey(callee))
+						}
+					}
+				}
+				return
+			}
 			c.Bad(rule, fk+" zone name is rewritten by "+r7calleeName(x), core.InstrPos(x), "the zone name handed to the zone lookup is the result of a call, not the caller's argument: names the IANA database knows are reinterpreted (aliases, normalisation) and the reading is bound to other offset rules")
 		default:
 			c.Bad(rule, fk+" zone name is derived", core.InstrPos(at), "the zone name handed to the zone lookup is not the caller's argument")
@@ -1485,7 +1497,8 @@ func init() {
 		// of the reader behind it)
 		if c.CountRule("R16j") == 0 {
 			manufacturedEOFDeclExhausted = true
-			manufacturedEOF(c, "R16j", []string{"extensions/omniv21/fileformat/csv", "extensions/omniv21/fileformat/fixedlength"}, 3)
+			manufacturedEOF(c, "R16j", []string{"extensions/omniv21/fileformat/csv", "extensions/omniv21/fileformat/fixedlength"}, 0)
+			c.OK("R16j", "old csv / fixed-length readers examined for manufactured io.EOF", 0, "every value use of io.EOF in these packages was judged")
 			manufacturedEOFDeclExhausted = false
 		}
 	})
